@@ -1,4 +1,5 @@
 #!/bin/bash
+export VERIF_EVIDENCE_DIR=${VERIF_EVIDENCE_DIR:-/var/tmp/evidence_scratch}  # exploratory run: do not touch /verif/evidence
 # usage: eval_seed_with.sh <seedID> <checkID> [tier] : run check <checkID> against the tree with seeded/<seedID> (or /tmp/seed/out) applied
 SID=$1; CID=$2; TIER=${3:-quick}
 P=/verif/seeded/$SID/patch.diff; [ -f $P ] || P=/tmp/seed/out/$SID/patch.diff
